@@ -6,7 +6,8 @@ import json
 import math
 import sys
 
-sys.path.insert(0, "/repo/src")
+import os
+sys.path.insert(0, os.path.join(os.environ.get("VERIF_REPO", "/repo"), "src"))
 sys.path.insert(0, sys.argv[3] if len(sys.argv) > 3 else "/verif")
 
 
